@@ -203,6 +203,28 @@ func (s *yStore) Batch(operations []spi.Operation) error {
 func (s *yStore) Flush() error { return s.inner.Flush() }
 func (s *yStore) Close() error { return s.inner.Close() }
 
+// lockedFormatter makes a (demo) formatter with internal state usable from many goroutines.
+type lockedFormatter struct {
+	mu    sync.Mutex
+	inner formattedstore.Formatter
+}
+
+func (l *lockedFormatter) Format(key string, value []byte, tags ...spi.Tag) (string, []byte, []spi.Tag, error) {
+	l.mu.Lock()
+	defer l.mu.Unlock()
+
+	return l.inner.Format(key, value, tags...)
+}
+
+func (l *lockedFormatter) Deformat(key string, value []byte, tags ...spi.Tag) (string, []byte, []spi.Tag, error) {
+	l.mu.Lock()
+	defer l.mu.Unlock()
+
+	return l.inner.Deformat(key, value, tags...)
+}
+
+func (l *lockedFormatter) UsesDeterministicKeyFormatting() bool { return l.inner.UsesDeterministicKeyFormatting() }
+
 // ---------- the real stack ----------
 
 // Wrap is one wrapper layer.
@@ -244,12 +266,14 @@ func (s Stack) coq() string {
 		case "batched":
 			t = fmt.Sprintf("(SBatched %s %s)", hx.CoqZ(int64(w.Limit)), t)
 		case "fmt":
-			f := "FNoop"
-			if w.Fmt == "b64det" {
-				f = "FB64"
+			switch w.Fmt {
+			case "b64rand":
+				t = "(SFmtR FB64 " + t + ")"
+			case "b64det":
+				t = "(SFmt FB64 " + t + ")"
+			default:
+				t = "(SFmt FNoop " + t + ")"
 			}
-
-			t = "(SFmt " + f + " " + t + ")"
 		}
 	}
 
@@ -289,6 +313,12 @@ func newStoreInst(st Stack, c *ctl) (*storeInst, error) {
 				f = exampleformatters.NewBase64Formatter(true)
 			}
 
+			if wr.Fmt == "b64rand" {
+				// non-deterministic (random) formatted keys, as the EDV encrypted formatter produces them
+				// (the example formatter is a documented demo helper with an unguarded key map: the harness serialises it)
+				f = &lockedFormatter{inner: exampleformatters.NewBase64Formatter(false)}
+			}
+
 			p = formattedstore.NewProvider(p, f)
 		default:
 			return nil, fmt.Errorf("unknown wrapper %q", wr.Kind)
@@ -297,6 +327,11 @@ func newStoreInst(st Stack, c *ctl) (*storeInst, error) {
 
 	s, err := p.OpenStore(storeName)
 	if err != nil {
+		return nil, err
+	}
+
+	// the store configuration goes through every layer (a random-key formattedstore needs it for its key tag)
+	if err := p.SetStoreConfig(storeName, spi.StoreConfiguration{TagNames: []string{"a", "b"}}); err != nil {
 		return nil, err
 	}
 
@@ -738,5 +773,7 @@ func allStacks() []Stack {
 		{Wraps: []Wrap{{Kind: "batched", Limit: 2}, {Kind: "cached"}}},
 		{Wraps: []Wrap{{Kind: "cached"}, {Kind: "batched", Limit: 2}}},
 		{Wraps: []Wrap{{Kind: "cached"}, {Kind: "fmt", Fmt: "b64det"}}},
+		{Wraps: []Wrap{{Kind: "fmt", Fmt: "b64rand"}}},
+		{Wraps: []Wrap{{Kind: "fmt", Fmt: "b64rand"}, {Kind: "cached"}}},
 	}
 }
